@@ -10,6 +10,7 @@ CONSTANTS
   Den = 21
   MaxSlots = 5
   GenN = 60
+  SubOrder = "sorted"
   UnionMode = "any"
   Mode = "genplain"
 INIT GenInit
